@@ -83,6 +83,20 @@ LAYER_P_THOROUGH = {
 }
 
 
+# ---- named environments whose names contain no cased character: case normalisation is the identity on them, all
+# "spellings" coincide. (name, default-layer template, P-layer template)
+CASELESS = [('2024', 'd1', 'p0'), ('3.11', 'd0', 'p1'), ('_', 'd1', 'p1'), ('7-1.0_2', 'dx', 'p3')]
+CASELESS_THOROUGH = [('0', 'de', 'p0'), ('__', 'd0', 'pe'), ('1.2.3', 'd2', 'p2'), ('10', 'd5', 'p4')]
+
+
+def caseless(thorough):
+    out = list(CASELESS) + (list(CASELESS_THOROUGH) if thorough else [])
+    for name, _, _ in out:
+        if name != name.lower() or name != name.upper():
+            raise AssertionError('%r is not caseless' % name)
+    return out
+
+
 def env_name(dk, pk):
     return 'myenv%s%s' % (dk[1:], pk[1:])
 
@@ -144,6 +158,13 @@ def environments_of(cfg, thorough, only=None):
                 envs['default'][spell(name, hows[(i + j + cfg['flip']) % 3])] = dict(dv)
             if pv is not None:
                 envs[P][spell(name, hows[(i + 2 * j + 1 + cfg['flip']) % 3])] = dict(pv)
+    for name, dk, pk in caseless(thorough):
+        if only is not None and name not in only:
+            continue
+        if ld[dk] is not None:
+            envs['default'][name] = dict(ld[dk])
+        if lp[pk] is not None:
+            envs[P][name] = dict(lp[pk])
     return envs
 
 
@@ -162,6 +183,9 @@ def selections(thorough):
             for how in ('lower', 'mixed', 'upper'):
                 out.append(('named', spell(name, how), False))
             out.append(('named', spell(name, 'mixed'), True))
+    for name, _, _ in caseless(thorough):
+        out.append(('named', name, False))
+        out.append(('named', name, True))
     return out
 
 
@@ -183,7 +207,7 @@ def groups(thorough):
     """Components are hosted in several documents per configuration (the product's validation cost grows with
     document size x number of components): one group for the special selections (hosted together with the named
     environments of the first non-absent, non-empty default-layer template, which nobody in that document selects)
-    and one group per default-platform layer template.
+    one group per default-platform layer template, and one group for the environments with caseless names.
     Returns [(group kind 'special'|'named', set of lower-case environment names, [components])]."""
     comps = components(thorough)
     ld, lp = layers(thorough)
@@ -192,6 +216,8 @@ def groups(thorough):
     for dk in ld:
         names = set(env_name(dk, pk) for pk in lp)
         out.append(('named', names, [c for c in comps if c['kind'] == 'named' and c['selection'].lower() in names]))
+    names = set(n for n, _, _ in caseless(thorough))
+    out.append(('named', names, [c for c in comps if c['kind'] == 'named' and c['selection'] in names]))
     if sum(len(m) for _, _, m in out) != len(comps):
         raise AssertionError('grouping lost components')
     return out
